@@ -135,6 +135,9 @@ def op_symbol(ctx, f):
     if isinstance(f, ast.Subscript) and isinstance(f.value, ast.Name) and f.value.id in ctx.oplists \
             and is_idx(ctx, f.slice):
         return '%s[%s]' % (f.value.id, ctx.idx)
+    if isinstance(f, ast.Subscript) and isinstance(f.value, ast.Name) and f.value.id in ctx.oplists \
+            and isinstance(f.slice, ast.Constant) and isinstance(f.slice.value, int) and f.slice.value >= 0:
+        return '%s[%d]' % (f.value.id, f.slice.value)
     if isinstance(f, ast.Attribute):
         base = op_symbol(ctx, f.value)
         if base is None:
@@ -178,6 +181,9 @@ def vname(ctx, e):
     if isinstance(e, ast.Subscript) and isinstance(e.value, ast.Name):
         if e.value.id in ctx.vlists and is_idx(ctx, e.slice):
             return '%s[%s]' % (e.value.id, ctx.idx)
+        if e.value.id in ctx.vlists and isinstance(e.slice, ast.Constant) and isinstance(e.slice.value, int) \
+                and e.slice.value >= 0:
+            return '%s[%d]' % (e.value.id, e.slice.value)
         if e.value.id in ctx.dicts:
             sp = space_expr(ctx, e.slice)
             if sp is not None:
@@ -326,7 +332,7 @@ def is_index_range(ctx, it):
         return it.id in ctx.ranges
     if isinstance(it, ast.Call) and isinstance(it.func, ast.Name) and it.func.id == 'range' and len(it.args) == 1:
         a = it.args[0]
-        if isinstance(a, ast.Name) and a.id in ('length', 'n_ops'):
+        if isinstance(a, ast.Name) and a.id in ('length', 'n_ops', 'm'):
             return True
         if isinstance(a, ast.Call) and isinstance(a.func, ast.Name) and a.func.id == 'len' and len(a.args) == 1 \
                 and isinstance(a.args[0], ast.Name) and a.args[0].id in ctx.oplists:
@@ -360,6 +366,13 @@ def stmt(ctx, s, out, depth):
         if test in ctx.flags:
             stmts(ctx, s.body if ctx.flags[test] else s.orelse, out, depth)
             return
+        # if k == niter - 1: ...; return      (last iteration of the main loop)
+        if depth == 1 and not s.orelse and ctx.loopvar is not None and test == '%s == niter - 1' % ctx.loopvar \
+                and s.body and isinstance(s.body[-1], ast.Return) and s.body[-1].value is None:
+            prog = []
+            stmts(ctx, s.body[:-1], prog, 1)
+            emit('(OIfLast ' + ' ;; '.join(prog) + ')')
+            return
         # if v is None: v = e  [elif ...: raise]   for an optional vector parameter
         if (isinstance(s.test, ast.Compare) and isinstance(s.test.left, ast.Name) and s.test.left.id in ctx.optional
                 and len(s.test.ops) == 1 and isinstance(s.test.ops[0], ast.Is)
@@ -377,11 +390,11 @@ def stmt(ctx, s, out, depth):
             return
         ctx.err(s, 'if-test is neither input validation nor a configured flag')
     if isinstance(s, ast.For):
-        if s.orelse or not isinstance(s.target, ast.Name):
+        if s.orelse:
             ctx.err(s, 'loop header')
         it = s.iter
         if depth == 0:
-            if ctx.body is not None:
+            if ctx.body is not None or not isinstance(s.target, ast.Name):
                 ctx.err(s, 'second main loop')
             if not (isinstance(it, ast.Call) and isinstance(it.func, ast.Name) and it.func.id == 'range'
                     and len(it.args) == 1 and isinstance(it.args[0], ast.Name)
@@ -391,7 +404,26 @@ def stmt(ctx, s, out, depth):
             ctx.body = []
             stmts(ctx, s.body, ctx.body, 1)
             return
-        if depth == 1 and is_index_range(ctx, it):
+        # for Li, vi in zip(L[1:], v[1:]): body   ->  loop over idx from 1 with Li = L[idx], vi = v[idx]
+        if depth == 1 and isinstance(it, ast.Call) and isinstance(it.func, ast.Name) and it.func.id == 'zip' \
+                and isinstance(s.target, ast.Tuple) and len(s.target.elts) == len(it.args) \
+                and all(isinstance(t, ast.Name) for t in s.target.elts) \
+                and all(isinstance(a, ast.Subscript) and isinstance(a.value, ast.Name)
+                        and a.value.id in (ctx.oplists | ctx.vlists) and isinstance(a.slice, ast.Slice)
+                        and isinstance(a.slice.lower, ast.Constant) and a.slice.upper is None and a.slice.step is None
+                        for a in it.args) and len({a.slice.lower.value for a in it.args}) == 1:
+            start = it.args[0].slice.lower.value
+            idx = 'i%d' % (len(ctx.inner) + 1)
+            mp = {t.id: '%s[%s]' % (a.value.id, idx) for t, a in zip(s.target.elts, it.args)}
+            body = [_Subst(mp).visit(ast.parse(ast.unparse(b)).body[0]) for b in s.body]
+            ctx.idx = idx
+            prog = []
+            stmts(ctx, body, prog, 2)
+            ctx.inner.append((idx, prog))
+            ctx.idx = None
+            emit('(OForFrom%d %s %s_inner%d)' % (start, cstr(idx), ctx.name, len(ctx.inner)))
+            return
+        if depth == 1 and isinstance(s.target, ast.Name) and is_index_range(ctx, it):
             ctx.idx = s.target.id
             prog = []
             stmts(ctx, s.body, prog, 2)
@@ -541,6 +573,9 @@ def stmt(ctx, s, out, depth):
             tgt = vname(ctx, f.value)
             if f.attr == 'lincomb':
                 emit(write_lincomb(ctx, c, emit))
+                return
+            if f.attr == 'set_zero' and not c.args and not c.keywords:
+                emit('(Write %s (VZero %s))' % (cstr(tgt), cstr(tgt + '.space')))
                 return
             if f.attr == 'assign' and len(c.args) == 1 and not c.keywords:
                 rhs = vx(ctx, c.args[0], emit)
@@ -763,6 +798,9 @@ class _Subst(ast.NodeTransformer):
 
 def _ref(ctx, name):
     """name string of the V dialect -> vref term"""
+    m = re.match(r'^(\w+)\[(\d+)\]$', name)
+    if m:
+        return '(RAt %s %s)' % (cstr(m.group(1)), m.group(2))
     m = re.match(r'^(\w+)\[(\w+)\]$', name)
     if m:
         return '(RIdx %s)' % cstr(m.group(1))
@@ -834,7 +872,7 @@ def pre_stmt(ctx, s, out):
         t, v = s.targets[0], s.value
         tn = t.id if isinstance(t, ast.Name) else None
         # n = len(ops)
-        if tn in ('length', 'n_ops') and isinstance(v, ast.Call) and ast.unparse(v.func) == 'len' \
+        if tn in ('length', 'n_ops', 'm') and isinstance(v, ast.Call) and ast.unparse(v.func) == 'len' \
                 and len(v.args) == 1 and isinstance(v.args[0], ast.Name) and v.args[0].id in ctx.oplists:
             return
         # option normalisation: callback_loop, callback_loop_in = str(callback_loop).lower(), callback_loop
@@ -843,6 +881,23 @@ def pre_stmt(ctx, s, out):
         # omega = normalized_scalar_param_list(omega, len(ops), param_conv=float)
         if tn in ctx.slists and isinstance(v, ast.Call) and ast.unparse(v.func) == 'normalized_scalar_param_list' \
                 and isinstance(v.args[0], ast.Name) and v.args[0].id == tn:
+            return
+        # tau, sigma = douglas_rachford_pd_stepsize(L, tau, sigma)
+        if isinstance(t, ast.Tuple) and all(isinstance(e, ast.Name) and (e.id in ctx.scalars or e.id in ctx.slists)
+                                            for e in t.elts) \
+                and isinstance(v, ast.Call) and ast.unparse(v.func) == 'douglas_rachford_pd_stepsize':
+            return
+        # rans = {Li.range for Li in L}
+        if tn is not None and isinstance(v, ast.SetComp):
+            mp = _comp_mapping(ctx, v.generators, s)
+            elt = _Subst(mp).visit(ast.parse(ast.unparse(v.elt), mode='eval').body)
+            ctx.idx = IDX
+            try:
+                if space_expr(ctx, elt) is None:
+                    ctx.err(s, 'set comprehension of non-spaces')
+            finally:
+                ctx.idx = None
+            ctx.keysets.add(tn)
             return
         # unique_ranges = set(ranges)
         if tn is not None and isinstance(v, ast.Call) and ast.unparse(v.func) == 'set' and len(v.args) == 1 \
@@ -884,12 +939,15 @@ def pre_stmt(ctx, s, out):
         if tn is not None and isinstance(v, ast.DictComp):
             mp = _comp_mapping(ctx, v.generators, s)
             if not (isinstance(v.key, ast.Name) and mp.get(v.key.id) == '#key' and isinstance(v.value, ast.Call)
-                    and isinstance(v.value.func, ast.Attribute) and v.value.func.attr == 'element'
+                    and isinstance(v.value.func, ast.Attribute) and v.value.func.attr in ('element', 'zero')
                     and isinstance(v.value.func.value, ast.Name) and v.value.func.value.id == v.key.id
                     and not v.value.args and not v.value.keywords):
                 ctx.err(s, 'dict comprehension shape')
             ctx.dicts.add(tn)
-            out.append('(PDict %s (LJunk %s))' % (cstr(tn), cstr(tn)))
+            if v.value.func.attr == 'zero':
+                out.append('(PDict %s (LZero %s))' % (cstr(tn), cstr(tn + '[key]')))
+            else:
+                out.append('(PDict %s (LJunk %s))' % (cstr(tn), cstr(tn)))
             return
     # everything else: the plain statement translator (validation, scalars, spaces, operator aliases, Bind ...)
     tmp = []
@@ -916,6 +974,15 @@ LCONFIG = {
 }
 
 
+DR = dict(file=N + 'douglas_rachford.py', scalars=['tau', 'niter', 'lam', 'lam_in', 'lam_k'], vectors=['x'],
+          operators=['f'], oplists=['L', 'g', 'l'], slists=['sigma'], vlists=[], dicts=[], splists=[],
+          optional=['l'], options=[],
+          flags={'callback is not None': True, 'len(L) > 0': True, 'l is not None': False,
+                 'l is not None and len(l) != m': False})
+LCONFIG['douglas_rachford_pd'] = DR
+LCONFIG['douglas_rachford_pd_noops'] = dict(DR, fn='douglas_rachford_pd', flags=dict(DR['flags'], **{'len(L) > 0': False}))
+LCONFIG['douglas_rachford_pd_l'] = dict(DR, fn='douglas_rachford_pd',
+                                        flags=dict(DR['flags'], **{'l is not None': True}))
 LCONFIG['kaczmarz_random'] = dict(LCONFIG['kaczmarz'], fn='kaczmarz',
                                   flags=dict(LCONFIG['kaczmarz']['flags'], random=True))
 LCONFIG['adupdates_random'] = dict(LCONFIG['adupdates'], fn='adupdates',
@@ -939,10 +1006,15 @@ def translate_list_solver(name, cfg, repo):
     items = []
     k = 0
     for t in ctx.body:
-        if t.startswith('(OFor'):
+        if t.startswith('(OIfLast '):
+            progs = [u for u in t[len('(OIfLast '):-1].split(' ;; ') if u]
+            items.append('(IIfLast [' + '; '.join(to_L(ctx, u) for u in progs) + '])')
+        elif t.startswith('(OFor'):
             idx, prog = ctx.inner[k]
             k += 1
-            items.append('(%s [\n' % ('IForOrd' if t.startswith('(OForOrd') else 'IFor')
+            head = 'IForOrd' if t.startswith('(OForOrd') else \
+                ('IForFrom %s' % t[len('(OForFrom'):].split(' ')[0] if t.startswith('(OForFrom') else 'IFor')
+            items.append('(%s [\n' % head
                          + ';\n'.join('      ' + to_L(ctx, u) for u in prog) + '])')
         else:
             items.append('(IStmt %s)' % to_L(ctx, t))
